@@ -172,6 +172,10 @@ def plain_values(rng, tier):
     out = list(PRIMS)
     out += [[], (), set(), frozenset(), {}, [1, [2, [3, [4]]]], (1, (2,)), {1, 2}, frozenset(["a"]), {"a": {"b": {"c": [None]}}},
             {1: "int key", (1, 2): "tuple key", None: "none key"}, [True, 1, 1.0, "1"], {"k": (1, 2), "s": {3}}]
+    # the same container object reached twice (acyclic sharing): shared rows, the empty-tuple singleton, a shared dict
+    row, shared_t, shared_d = [1, "r"], (1, 2), {"k": None}
+    out += [[row, row], {"a": row, "b": [row]}, [shared_t, shared_t], [(), ()], [[], []], {"x": shared_d, "y": {"z": shared_d}},
+            (shared_t, [shared_t, {"t": shared_t}])]
     for _ in range(60 if tier == "quick" else 1500):
         def gen(d):
             r = rng.random()
